@@ -173,8 +173,16 @@ pub fn run_case(case: &Case, cfg: &RunCfg) -> Verdict {
         isolation::load_rules(vec![Arc::new(isolation::Rule { resource: res.clone(), threshold: t, ..Default::default() })]);
     }
     let real = cb::get_breakers_of_resource(&res);
-    if real.len() != case.rules.len() {
-        fail!(ID, "breakers-not-built", "breakers-not-built", case, "{} breakers for {} rules", real.len(), case.rules.len());
+    // rules that are equal under rule equality (the id is ignored) are one rule
+    let built: Vec<cb::Rule> = case.rules.iter().map(|s| to_rule(&res, s)).collect();
+    let mut distinct = 0usize;
+    for (i, r) in built.iter().enumerate() {
+        if !built[..i].iter().any(|q| q == r) {
+            distinct += 1;
+        }
+    }
+    if real.len() != distinct {
+        fail!(ID, "breakers-not-built", "breakers-not-built", case, "{} breakers for {} distinct rules", real.len(), distinct);
     }
     // model breakers in the observed order
     let mut model: Vec<Breaker> = Vec::new();
@@ -291,7 +299,7 @@ pub fn run_case(case: &Case, cfg: &RunCfg) -> Verdict {
     if seen_open { classes.push("visits-open"); }
     if seen_half { classes.push("visits-half-open"); }
     if blocked_probe { classes.push("blocked-probe"); }
-    if case.rules.len() == 2 { classes.push("two-breakers"); }
+    if real.len() == 2 { classes.push("two-breakers"); }
     if expiry_between { classes.push("window-expiry-between-errors"); }
     if case.rules.iter().any(|r| r.min_request_amount == 0) { classes.push("min-request-amount-0"); }
     if cross_state { classes.push("completion-in-other-state"); }
